@@ -1,10 +1,10 @@
 package props
 
 import (
-	"sort"
 	"context"
 	"errors"
 	"fmt"
+	"sort"
 	"time"
 
 	"github.com/attestantio/vouch/services/scheduler"
